@@ -31,9 +31,9 @@ def lit_str(l):
     if n == 0:
         return ''
     if l['full']:
-        return 'a' * n
+        return 'a' * n if n < 3 else 'a ' + 'a' * (n - 2)      # longer texts contain a space
     if l['prefix']:
-        return 'a' * (n - 1) + 'Z'
+        return ('a' * (n - 1) if n < 4 else 'a ' + 'a' * (n - 3)) + 'Z'
     return 'Z' + 'a' * (n - 1)
 
 
@@ -133,7 +133,8 @@ class DefaultsJudge(Judge):
             return isinstance(got, (int, float)) and not isinstance(got, bool) and got == FLOAT_ANCHORS[exp['r']]
         if k == 'str':
             n = exp['len']
-            return got == ('' if n == 0 else ('a' * n if exp['ok'] else None)) or (not exp['ok'] and isinstance(got, str) and len(got) == n)
+            full = lit_str({'len': n, 'full': True, 'prefix': True})
+            return got == ('' if n == 0 else (full if exp['ok'] else None)) or (not exp['ok'] and isinstance(got, str) and len(got) == n)
         if k == 'bool':
             return got is exp['b']
         if k == 'obj':
